@@ -19,10 +19,11 @@ const (
 	RecWithErr             // exactly Rec together with a non-nil error (documented content-type case)
 	ErrReq                 // a non-nil error; any data returned with it must be the complete Rec
 	DontCare               // the property is silent; only the universal invariants apply from here on
+	ExactOrErr             // a field name is malformed (a bare CR in it): the field is ignored - then exactly Rec - or the frame is refused with an error; never read as a known field
 )
 
 func (k Kind) String() string {
-	return [...]string{"exact", "record+error", "error-required", "dont-care"}[k]
+	return [...]string{"exact", "record+error", "error-required", "dont-care", "exact-or-error"}[k]
 }
 
 // Step is the expectation for one Recv call.
@@ -101,6 +102,7 @@ func expectHeader(mime string, strict bool, s []byte) []Step {
 		var clen, ctype string
 		var haveLen, haveType bool
 		odd := ""
+		lenient := false
 		for {
 			i := bytes.IndexByte(s, '\n')
 			if i < 0 {
@@ -114,7 +116,12 @@ func expectHeader(mime string, strict bool, s []byte) []Step {
 			s = s[i+1:]
 			line = strings.TrimSuffix(line, "\r")
 			if strings.ContainsAny(line, "\r") {
-				odd = "bare CR in header"
+				if nm, _, ok := strings.Cut(line, ":"); ok && strings.Contains(nm, "\r") && !strings.Contains(line[len(nm):], "\r") &&
+					!strings.EqualFold(nm, "content-length") && !strings.EqualFold(nm, "content-type") && nm == strings.TrimSpace(nm) {
+					lenient = true // an unknown, malformed field name: ignored, or the frame refused
+				} else {
+					odd = "bare CR in header"
+				}
 			}
 			if line == "" {
 				break
@@ -184,9 +191,14 @@ func expectHeader(mime string, strict bool, s []byte) []Step {
 		if !strict && ctype == "" {
 			mismatch = false
 		}
-		if mismatch {
+		switch {
+		case lenient && mismatch:
+			return append(out, Step{Kind: DontCare, Why: "malformed field name next to a content type mismatch"})
+		case lenient:
+			out = append(out, Step{Kind: ExactOrErr, Rec: rec, Why: "framed record; a field name with a bare CR in it is ignored or refused"})
+		case mismatch:
 			out = append(out, Step{Kind: RecWithErr, Rec: rec, Why: "content type mismatch"})
-		} else {
+		default:
 			out = append(out, Step{Kind: Exact, Rec: rec, Why: "framed record"})
 		}
 	}
